@@ -144,14 +144,20 @@ fn list_current_history(sh: &Shell, conn: &Conn,
     let history_table = history::get_history_table();
     let mut sql = format!("SELECT ROWID, inp, tsb FROM {} WHERE ROWID > 0",
                           history_table);
+    // values are bound as parameters (a pattern or a directory name may
+    // contain quotes)
+    let mut params: Vec<String> = Vec::new();
     if !opt.pattern.is_empty() {
-        sql = format!("{} AND inp LIKE '%{}%'", sql, opt.pattern)
+        params.push(format!("%{}%", opt.pattern));
+        sql = format!("{} AND inp LIKE ?{}", sql, params.len())
     }
     if opt.session {
-        sql = format!("{} AND sessionid = '{}'", sql, sh.session_id)
+        params.push(sh.session_id.clone());
+        sql = format!("{} AND sessionid = ?{}", sql, params.len())
     }
     if opt.pwd {
-        sql = format!("{} AND info like '%dir:{}|%'", sql, sh.current_dir)
+        params.push(format!("%dir:{}|%", sh.current_dir));
+        sql = format!("{} AND info like ?{}", sql, params.len())
     }
 
     if opt.asc {
@@ -170,7 +176,7 @@ fn list_current_history(sh: &Shell, conn: &Conn,
         }
     };
 
-    let mut rows = match stmt.query([]) {
+    let mut rows = match stmt.query(rusqlite::params_from_iter(params.iter())) {
         Ok(x) => x,
         Err(e) => {
             let info = format!("history: query error: {:?}", e);
